@@ -257,6 +257,21 @@ func (e *SpecEnv) eval(x *SExpr) *Val {
 		return boolVal(isAny(v.L[0], t, e.te))
 	case "call":
 		return e.call(x)
+	case "mk":
+		t := e.resolveType(x.Type)
+		st, ok := types.Unalias(t).Underlying().(*types.Struct)
+		if !ok {
+			e.fail(x, "mk[] of non-struct type %s", t)
+		}
+		if len(x.Args) != st.NumFields() {
+			e.fail(x, "mk[%s] expects %d field values", t, st.NumFields())
+		}
+		out := &Val{T: t}
+		for i, a := range x.Args {
+			v := e.adapt(x, e.eval(a), st.Field(i).Type())
+			out.L = append(out.L, v.L...)
+		}
+		return out
 	case "slice":
 		e.fail(x, "slice expressions are not supported in specifications")
 	}
